@@ -194,6 +194,8 @@ def schedules(ctx):
         delay = rng.choice([0.0, 0.004, 0.02])
         if iters >= 300 and w == 32 and program == H:
             delay = 0.03          # stress run: many fast iterations contending for the lock, long holds -> lock timeouts
+        if iters == 40 and w == 1 or (iters == 17 and w == 16):
+            st['stale_lock'] = True       # result directory with the lock file of an earlier, killed run
         plans.append((st, w, delay))
     return plans
 
@@ -231,7 +233,7 @@ def run(ctx):
     ctx.rule = ('Monte-Carlo runs of the real client over settings files mixing uniform / normal / triangular / lognormal / '
                 'binomial inputs (GEOPHIRES fast base and HIP-RA-X), iteration counts {1,3,16,17,40,120,300(,1000)}, the pool '
                 'forced to {1,2,4,16,32} workers by a ProcessPoolExecutor subclass that only presets max_workers, random '
-                'sleeps of 0 / 4 / 20 ms injected before, inside and after the lock-guarded row append, failure rates 0 / 30 / '
+                'sleeps of 0 / 4 / 20 ms injected before, inside and after the lock-guarded row append (two runs start with the stale lock file of a killed run next to the result file), failure rates 0 / 30 / '
                 '90 % (samples driven out of range); distinct = (settings text, worker count, delay); a run is non-trivial '
                 'when it has at least one iteration (every run); MC sampling is seeded from OS entropy by the code under '
                 'test, so verdicts are structural or use alpha = 1e-6 statistical thresholds')
